@@ -1,113 +1,575 @@
 import Ccd.Basic
-/-! scratch: first C20 theorems on the cache pilot model -/
+/-! Lemmas about the sequential cache model (`Ccd/Basic.lean`); the property theorems are in `Properties/C20.lean`. -/
 namespace Ccd
 
-/-- Delete: an entry disappears only after its cleanup was called and succeeded; a failing cleanup keeps it -/
-theorem delete_spec (c : Cache) (k : Nat) (e : Entry) (he : c.find k = some e) (hfn : c.hasFn = true) :
-    (fails e.val = true → (delete c k).1 = c ∧ (delete c k).2.1 = [(k, e.val)] ∧ (delete c k).2.2 = true) ∧
-    (fails e.val = false → (delete c k).1 = c.erase k ∧ (delete c k).2.1 = [(k, e.val)] ∧ (delete c k).2.2 = false) := by
-  unfold delete
-  simp only [he, hfn, if_true]
-  constructor
-  · intro hf; simp [hf]
-  · intro hf; simp [hf]
+/-- two entries are the same incarnation: same key, value and creating `Set` -/
+def Same (a b : Entry) : Prop := a.key = b.key ∧ a.val = b.val ∧ a.id = b.id
 
-theorem erase_mem (c : Cache) (k : Nat) (x : Entry) : x ∈ (c.erase k).entries ↔ x ∈ c.entries ∧ x.key ≠ k := by
-  unfold Cache.erase
-  simp [List.mem_filter]
+theorem Same.rfl' (a : Entry) : Same a a := ⟨rfl, rfl, rfl⟩
 
-theorem put_mem_other (c : Cache) (e x : Entry) (hx : x.key ≠ e.key) : x ∈ (c.put e).entries ↔ x ∈ c.entries := by
-  unfold Cache.put
-  split
-  · simp only [List.mem_map]
-    constructor
-    · rintro ⟨y, hy, rfl⟩
-      by_cases hk : y.key = e.key
-      · simp only [hk, if_true] at hx ⊢
-        exact absurd rfl hx
-      · simp only [hk, if_false]
-        exact hy
-    · intro h
-      exact ⟨x, h, by simp [hx]⟩
-  · simp only [List.mem_append, List.mem_singleton]
-    constructor
-    · rintro (h | rfl)
-      · exact h
-      · exact absurd rfl hx
-    · intro h; exact Or.inl h
+/-- distinct entries of the map differ in key and in incarnation -/
+def Apart (a b : Entry) : Prop := a.key ≠ b.key ∧ a.id ≠ b.id
 
-/-- the step of the age prune on one entry -/
-def ageStep (now : Nat) (acc : Out) (e : Entry) : Out :=
-  let (c, calls, err) := acc
-  if e.used + c.minAge < now then
-    if c.hasFn then
-      if fails e.val then (c.put { e with used := now }, calls ++ [(e.key, e.val)], err)
-      else (c.erase e.key, calls ++ [(e.key, e.val)], err)
-    else (c.erase e.key, calls, err)
-  else acc
+/-- the list stands for a map: keys are unique; incarnation ids are unique and below the counter -/
+structure Cache.WF (c : Cache) : Prop where
+  keys : c.entries.Pairwise Apart
+  ids : ∀ e ∈ c.entries, e.id < c.nextId
 
-theorem pruneAge_eq (c : Cache) (now : Nat) (h : c.minAge ≠ 0) :
-    pruneAge c now = c.entries.foldl (ageStep now) (c, [], false) := by
-  unfold pruneAge
-  simp only [h, if_false]
-  rfl
+theorem apart_symm {a b : Entry} (h : Apart a b) : Apart b a := ⟨fun e => h.1 e.symm, fun e => h.2 e.symm⟩
 
-/-- an entry that is not the one being processed survives a step unchanged -/
-theorem ageStep_keeps (now : Nat) (acc : Out) (e x : Entry) (hx : x.key ≠ e.key) (hm : x ∈ acc.1.entries) :
-    x ∈ (ageStep now acc e).1.entries := by
-  obtain ⟨c, calls, err⟩ := acc
-  unfold ageStep
-  simp only []
-  split
-  · split
-    · split
-      · exact (put_mem_other c { e with used := now } x hx).mpr hm
-      · exact (erase_mem c e.key x).mpr ⟨hm, hx⟩
-    · exact (erase_mem c e.key x).mpr ⟨hm, hx⟩
-  · exact hm
-
-theorem ageStep_minAge (now : Nat) (acc : Out) (e : Entry) : (ageStep now acc e).1.minAge = acc.1.minAge := by
-  obtain ⟨c, calls, err⟩ := acc
-  unfold ageStep
-  simp only []
-  split
-  · split
-    · split
-      · unfold Cache.put; split <;> rfl
+theorem pairwise_key_inj {l : List Entry} (h : l.Pairwise Apart) {a b : Entry} (ha : a ∈ l) (hb : b ∈ l)
+    (hk : a.key = b.key) : a = b := by
+  induction l with
+  | nil => cases ha
+  | cons x xs ih =>
+    rw [List.pairwise_cons] at h
+    rcases List.mem_cons.mp ha with rfl | ha'
+    · rcases List.mem_cons.mp hb with rfl | hb'
       · rfl
-    · rfl
-  · rfl
+      · exact absurd hk (h.1 b hb').1
+    · rcases List.mem_cons.mp hb with rfl | hb'
+      · exact absurd hk.symm (h.1 a ha').1
+      · exact ih h.2 ha' hb'
 
-/-- C20: the age prune never removes an entry that was used within the configured age
-    (keys are distinct in a cache; the entry is identified by its key) -/
-theorem pruneAge_not_early (c : Cache) (now : Nat) (x : Entry) (hx : x ∈ c.entries)
-    (huniq : ∀ y ∈ c.entries, y.key = x.key → y = x) (hfresh : ¬ (x.used + c.minAge < now)) :
-    x ∈ (pruneAge c now).1.entries := by
-  by_cases h0 : c.minAge = 0
-  · unfold pruneAge; simp [h0, hx]
-  · rw [pruneAge_eq c now h0]
-    -- generalise over the fold: process a sublist `l` of the original entries
-    have gen : ∀ (l : List Entry) (acc : Out), (∀ y ∈ l, y ∈ c.entries) → acc.1.minAge = c.minAge → x ∈ acc.1.entries →
-        x ∈ (l.foldl (ageStep now) acc).1.entries := by
-      intro l
-      induction l with
-      | nil => intro acc _ _ h; exact h
-      | cons e rest ih =>
-        intro acc hsub hmin hmem
-        simp only [List.foldl_cons]
-        apply ih
-        · intro y hy; exact hsub y (List.mem_cons_of_mem _ hy)
-        · rw [ageStep_minAge]; exact hmin
-        · by_cases hk : e.key = x.key
-          · -- the entry itself: it is fresh, so the step leaves everything as it is
-            have hex : e = x := huniq e (hsub e List.mem_cons_self) hk
-            subst hex
-            obtain ⟨c', calls, err⟩ := acc
-            unfold ageStep
-            simp only [] at hmin ⊢
-            rw [hmin]
-            simp only [hfresh, if_false]
-            exact hmem
-          · exact ageStep_keeps now acc e x (fun h => hk h.symm) hmem
-    exact gen c.entries (c, [], false) (fun y hy => hy) rfl hx
+theorem Cache.WF.key_inj {c : Cache} (h : c.WF) {a b : Entry} (ha : a ∈ c.entries) (hb : b ∈ c.entries)
+    (hk : a.key = b.key) : a = b := pairwise_key_inj h.keys ha hb hk
+
+theorem find_some {c : Cache} {k : Nat} {e : Entry} (h : c.find k = some e) : e ∈ c.entries ∧ e.key = k := by
+  unfold Cache.find at h
+  exact ⟨List.mem_of_find?_eq_some h, by simpa using List.find?_some h⟩
+
+theorem find_none {c : Cache} {k : Nat} (h : c.find k = none) : ∀ e ∈ c.entries, e.key ≠ k := by
+  unfold Cache.find at h
+  intro e he
+  have := List.find?_eq_none.mp h e he
+  simpa using this
+
+/-! ### `mkCache`, configuration -/
+
+theorem mkCache_wf (age count : Nat) (hasFn : Bool) : (mkCache age count hasFn).WF :=
+  ⟨List.Pairwise.nil, fun _ h => by cases h⟩
+
+theorem ninety_le (count : Nat) : ninety count ≤ count := by unfold ninety; omega
+
+theorem mkCache_limits (age count : Nat) (hasFn : Bool) (h : 0 < count) :
+    0 < (mkCache age count hasFn).minCount ∧ (mkCache age count hasFn).minCount ≤ (mkCache age count hasFn).maxCount := by
+  have := ninety_le count
+  simp only [mkCache, h, if_true]
+  split <;> omega
+
+/-! ### `put` -/
+
+theorem put_wf {c : Cache} (h : c.WF) (k v now : Nat) : (c.put k v now).WF := by
+  constructor
+  · simp only [Cache.put]
+    rw [List.pairwise_append]
+    refine ⟨h.keys.filter _, List.pairwise_singleton _ _, ?_⟩
+    intro a ha b hb
+    rw [List.mem_filter] at ha
+    rw [List.mem_singleton] at hb
+    subst hb
+    have := h.ids a ha.1
+    exact ⟨by simpa using ha.2, by simp only []; omega⟩
+  · intro e he
+    simp only [Cache.put, List.mem_append, List.mem_filter, List.mem_singleton] at he ⊢
+    rcases he with he | rfl
+    · have := h.ids e he.1; omega
+    · simp
+
+theorem put_mem {c : Cache} {k v now : Nat} {e : Entry} (he : e ∈ (c.put k v now).entries) :
+    (e ∈ c.entries ∧ e.key ≠ k) ∨ e = ⟨k, v, now, c.nextId⟩ := by
+  simp only [Cache.put, List.mem_append, List.mem_filter, List.mem_singleton] at he
+  rcases he with he | he
+  · exact Or.inl ⟨he.1, by simpa using he.2⟩
+  · exact Or.inr he
+
+/-! ### sorting by last use -/
+
+theorem insertByUsed_perm (e : Entry) (l : List Entry) : (insertByUsed e l).Perm (e :: l) := by
+  induction l with
+  | nil => exact List.Perm.refl _
+  | cons x xs ih =>
+    simp only [insertByUsed]
+    split
+    · exact List.Perm.refl _
+    · exact (List.Perm.cons x ih).trans (List.Perm.swap e x xs)
+
+theorem sortByUsed_perm (l : List Entry) : (sortByUsed l).Perm l := by
+  induction l with
+  | nil => exact List.Perm.refl _
+  | cons x xs ih => exact (insertByUsed_perm x _).trans (List.Perm.cons x ih)
+
+theorem olderEq_iff (a b : Entry) :
+    olderEq a b = true ↔ (a.used < b.used ∨ (a.used = b.used ∧ a.key ≤ b.key)) := by
+  simp [olderEq]
+
+theorem olderEq_total (a b : Entry) (h : olderEq a b = false) : olderEq b a = true := by
+  rw [olderEq_iff]
+  have h' : ¬ (a.used < b.used ∨ (a.used = b.used ∧ a.key ≤ b.key)) := by
+    rw [← olderEq_iff]; simp [h]
+  omega
+
+theorem olderEq_trans {a b c : Entry} : olderEq a b = true → olderEq b c = true → olderEq a c = true := by
+  simp only [olderEq, Bool.or_eq_true, Bool.and_eq_true, decide_eq_true_eq]
+  intro h1 h2
+  rcases h1 with h1 | ⟨h1, h1'⟩ <;> rcases h2 with h2 | ⟨h2, h2'⟩
+  · exact Or.inl (by omega)
+  · exact Or.inl (by omega)
+  · exact Or.inl (by omega)
+  · exact Or.inr ⟨by omega, by omega⟩
+
+theorem olderEq_used {a b : Entry} (h : olderEq a b = true) : a.used ≤ b.used := by
+  simp only [olderEq, Bool.or_eq_true, Bool.and_eq_true, decide_eq_true_eq] at h
+  omega
+
+theorem insertByUsed_sorted (e : Entry) (l : List Entry) (h : l.Pairwise (fun a b => olderEq a b = true)) :
+    (insertByUsed e l).Pairwise (fun a b => olderEq a b = true) := by
+  induction l with
+  | nil => exact List.pairwise_singleton _ _
+  | cons x xs ih =>
+    rw [List.pairwise_cons] at h
+    simp only [insertByUsed]
+    split
+    · rename_i hex
+      rw [List.pairwise_cons]
+      refine ⟨?_, List.pairwise_cons.mpr h⟩
+      intro y hy
+      rcases List.mem_cons.mp hy with rfl | hy'
+      · exact hex
+      · exact olderEq_trans hex (h.1 y hy')
+    · rename_i hex
+      rw [List.pairwise_cons]
+      refine ⟨?_, ih h.2⟩
+      intro y hy
+      have hy' := (insertByUsed_perm e xs).mem_iff.mp hy
+      rcases List.mem_cons.mp hy' with rfl | hy''
+      · exact olderEq_total _ _ (by simpa using hex)
+      · exact h.1 y hy''
+
+theorem sortByUsed_sorted (l : List Entry) : (sortByUsed l).Pairwise (fun a b => olderEq a b = true) := by
+  induction l with
+  | nil => exact List.Pairwise.nil
+  | cons x xs ih => exact insertByUsed_sorted x _ ih
+
+/-! ### the eviction loop -/
+
+/-- the entry after a failed cleanup in a prune at `now` -/
+def redate (now : Nat) (e : Entry) : Entry := { e with used := now }
+
+/-- the loop of `pruneCount` handles a prefix `p` of the sorted list and leaves the rest `q` alone: the entries
+    of `p` whose cleanup fails are re-dated, the others are removed; it stops after `n` removals -/
+theorem evict_prefix (hasFn : Bool) (fl : Nat → Bool) (now : Nat) (n : Nat) (s : List Entry) :
+    ∃ p q, s = p ++ q ∧
+      (evict hasFn fl now n s).1 = (p.filter (failing hasFn fl)).map (redate now) ++ q ∧
+      (evict hasFn fl now n s).2 = p.flatMap (callOf hasFn fl) ∧
+      (p.filter (fun e => !failing hasFn fl e)).length ≤ n ∧
+      (q ≠ [] → (p.filter (fun e => !failing hasFn fl e)).length = n) := by
+  induction s generalizing n with
+  | nil =>
+    refine ⟨[], [], rfl, ?_, ?_, by simp, by simp⟩ <;> cases n <;> simp [evict]
+  | cons e rest ih =>
+    cases n with
+    | zero => exact ⟨[], e :: rest, rfl, by simp [evict], by simp [evict], by simp, by simp⟩
+    | succ n =>
+      by_cases hf : failing hasFn fl e = true
+      · obtain ⟨p, q, hs, h1, h2, h3, h4⟩ := ih (n + 1)
+        refine ⟨e :: p, q, by rw [hs]; rfl, ?_, ?_, ?_, ?_⟩
+        · simp only [evict, hf, if_true, h1, List.filter_cons_of_pos hf, List.map_cons, redate, List.cons_append]
+        · simp only [evict, hf, if_true, h2, List.flatMap_cons]
+        · simpa [List.filter_cons, hf] using h3
+        · simpa [List.filter_cons, hf] using h4
+      · have hf' : failing hasFn fl e = false := by simpa using hf
+        obtain ⟨p, q, hs, h1, h2, h3, h4⟩ := ih n
+        refine ⟨e :: p, q, by rw [hs]; rfl, ?_, ?_, ?_, ?_⟩
+        · simp only [evict, hf', Bool.false_eq_true, if_false, h1, List.filter_cons]
+        · simp only [evict, hf', Bool.false_eq_true, if_false, h2, List.flatMap_cons]
+        · simp only [List.filter_cons, hf', Bool.not_false, if_true, List.length_cons]; omega
+        · intro hq; have := h4 hq
+          simp only [List.filter_cons, hf', Bool.not_false, if_true, List.length_cons]; omega
+
+/-- when no cleanup fails the loop removes exactly `n` entries (all of them if there are fewer) -/
+theorem evict_all_ok (hasFn : Bool) (fl : Nat → Bool) (now : Nat) (n : Nat) (s : List Entry)
+    (hok : ∀ e ∈ s, failing hasFn fl e = false) : (evict hasFn fl now n s).1.length = s.length - n := by
+  induction s generalizing n with
+  | nil => cases n <;> simp [evict]
+  | cons e rest ih =>
+    cases n with
+    | zero => simp [evict]
+    | succ n =>
+      have he := hok e List.mem_cons_self
+      simp only [evict, he, Bool.false_eq_true, if_false, List.length_cons]
+      rw [ih n (fun x hx => hok x (List.mem_cons_of_mem _ hx))]
+      omega
+
+/-- a successful callback invocation for `e` -/
+def okCall (e : Entry) : Call := ⟨e.key, e.val, true⟩
+
+theorem callOf_ok {hasFn : Bool} {fl : Nat → Bool} {e : Entry} (hfn : hasFn = true) (hf : failing hasFn fl e = false) :
+    okCall e ∈ callOf hasFn fl e := by
+  simp only [failing, hfn, Bool.true_and] at hf
+  simp [callOf, hfn, hf, okCall]
+
+theorem callOf_failed {hasFn : Bool} {fl : Nat → Bool} {e : Entry} {x : Call} (hx : x ∈ callOf hasFn fl e)
+    (hbad : x.ok = false) : failing hasFn fl e = true ∧ x.key = e.key ∧ x.val = e.val := by
+  unfold callOf at hx
+  split at hx
+  · rename_i hfn
+    rw [List.mem_singleton] at hx
+    subst hx
+    simp only [Bool.not_eq_false'] at hbad
+    simp [failing, hfn, hbad]
+  · cases hx
+
+/-! ### origin of the entries after an operation: nothing is invented, nothing changes key, value or incarnation -/
+
+theorem get_entries (c : Cache) (k now : Nat) :
+    (get c k now).1.entries = c.entries ∨
+    (get c k now).1.entries = c.entries.map (fun x => if x.key = k then { x with used := now } else x) := by
+  unfold get; split
+  · exact Or.inr rfl
+  · exact Or.inl rfl
+
+theorem get_origin {c : Cache} {k now : Nat} {e' : Entry} (h : e' ∈ (get c k now).1.entries) :
+    ∃ e ∈ c.entries, Same e' e := by
+  rcases get_entries c k now with h0 | h0 <;> rw [h0] at h
+  · exact ⟨e', h, Same.rfl' _⟩
+  · obtain ⟨x, hx, rfl⟩ := List.mem_map.mp h
+    refine ⟨x, hx, ?_⟩
+    split <;> exact ⟨rfl, rfl, rfl⟩
+
+theorem get_keeps {c : Cache} {k now : Nat} {e : Entry} (h : e ∈ c.entries) :
+    ∃ e' ∈ (get c k now).1.entries, Same e' e := by
+  rcases get_entries c k now with h0 | h0 <;> rw [h0]
+  · exact ⟨e, h, Same.rfl' _⟩
+  · refine ⟨_, List.mem_map.mpr ⟨e, h, rfl⟩, ?_⟩
+    split <;> exact ⟨rfl, rfl, rfl⟩
+
+theorem ageEntry_same {c : Cache} {now : Nat} {fl : Nat → Bool} {e e' : Entry} (h : ageEntry c now fl e = some e') :
+    Same e' e := by
+  unfold ageEntry at h
+  split at h
+  · split at h
+    · cases h; exact ⟨rfl, rfl, rfl⟩
+    · cases h
+  · cases h; exact Same.rfl' _
+
+theorem evict_origin {hasFn : Bool} {fl : Nat → Bool} {now n : Nat} {s : List Entry} {e' : Entry}
+    (h : e' ∈ (evict hasFn fl now n s).1) : ∃ e ∈ s, Same e' e := by
+  obtain ⟨p, q, hs, h1, -, -, -⟩ := evict_prefix hasFn fl now n s
+  rw [h1, List.mem_append] at h
+  rcases h with h | h
+  · obtain ⟨x, hx, rfl⟩ := List.mem_map.mp h
+    exact ⟨x, by rw [hs]; exact List.mem_append_left _ (List.mem_filter.mp hx).1, ⟨rfl, rfl, rfl⟩⟩
+  · exact ⟨e', by rw [hs]; exact List.mem_append_right _ h, Same.rfl' _⟩
+
+/-- a list obtained from a map by dropping entries and changing last-use stamps is still a map -/
+theorem pairwise_of_origin {l l' : List Entry} (hl : l.Pairwise Apart)
+    (hsub : ∃ f : Entry → Option Entry, l' = l.filterMap f ∧ ∀ a b, f a = some b → Same b a) : l'.Pairwise Apart := by
+  obtain ⟨f, rfl, hf⟩ := hsub
+  rw [List.pairwise_filterMap]
+  refine hl.imp ?_
+  intro a a' haa b hb b' hb'
+  obtain ⟨k1, -, i1⟩ := hf a b hb
+  obtain ⟨k2, -, i2⟩ := hf a' b' hb'
+  exact ⟨by rw [k1, k2]; exact haa.1, by rw [i1, i2]; exact haa.2⟩
+
+theorem evict_pairwise {hasFn : Bool} {fl : Nat → Bool} {now n : Nat} {s : List Entry} (hs : s.Pairwise Apart) :
+    (evict hasFn fl now n s).1.Pairwise Apart := by
+  induction s generalizing n with
+  | nil => cases n <;> simp [evict]
+  | cons e rest ih =>
+    rw [List.pairwise_cons] at hs
+    cases n with
+    | zero => simpa [evict] using List.pairwise_cons.mpr hs
+    | succ n =>
+      simp only [evict]
+      split
+      · rw [List.pairwise_cons]
+        refine ⟨?_, ih hs.2⟩
+        intro x hx
+        obtain ⟨y, hy, k, -, i⟩ := evict_origin hx
+        have := hs.1 y hy
+        exact ⟨by rw [k]; exact this.1, by rw [i]; exact this.2⟩
+      · exact ih hs.2
+
+/-! ### every operation keeps the list a map and the configuration fixed -/
+
+theorem pruneCount_wf {c : Cache} (h : c.WF) (now : Nat) (fl : Nat → Bool) : (pruneCount c now fl).1.WF := by
+  unfold pruneCount
+  split
+  · exact h
+  · constructor
+    · exact evict_pairwise (((sortByUsed_perm c.entries).pairwise_iff (fun h => apart_symm h)).mpr h.keys)
+    · intro e he
+      obtain ⟨y, hy, -, -, i⟩ := evict_origin he
+      have := h.ids y ((sortByUsed_perm c.entries).mem_iff.mp hy)
+      simp only []; omega
+
+theorem step_wf {c : Cache} (h : c.WF) (op : Op) : (step c op).1.WF := by
+  cases op with
+  | set k v now fl =>
+    simp only [step, set]
+    split
+    · exact pruneCount_wf (put_wf h k v now) now fl
+    · exact put_wf h k v now
+  | get k now =>
+    simp only [step]
+    unfold get; split
+    · constructor
+      · simp only []
+        rw [List.pairwise_map]
+        refine h.keys.imp ?_
+        intro a b hab
+        constructor
+        · split <;> split <;> exact hab.1
+        · split <;> split <;> exact hab.2
+      · intro e he
+        obtain ⟨x, hx, rfl⟩ := List.mem_map.mp he
+        have := h.ids x hx
+        split <;> simpa using this
+    · exact h
+  | delete k fl =>
+    simp only [step]
+    unfold delete; split
+    · split
+      · exact h
+      · exact ⟨h.keys.filter _, fun e he => h.ids e (List.mem_filter.mp he).1⟩
+    · exact h
+  | deleteAll fl =>
+    exact ⟨h.keys.filter _, fun e he => h.ids e (List.mem_filter.mp he).1⟩
+  | pruneAge now fl =>
+    simp only [step]
+    unfold pruneAge; split
+    · exact h
+    · constructor
+      · exact pairwise_of_origin h.keys ⟨ageEntry c now fl, rfl, fun a b hab => ageEntry_same hab⟩
+      · intro e he
+        obtain ⟨x, hx, hxe⟩ := List.mem_filterMap.mp he
+        have := h.ids x hx
+        rw [(ageEntry_same hxe).2.2]; exact this
+  | pruneCount now fl => exact pruneCount_wf h now fl
+
+theorem pruneCount_cfg (c : Cache) (now : Nat) (fl : Nat → Bool) :
+    (pruneCount c now fl).1.minAge = c.minAge ∧ (pruneCount c now fl).1.maxCount = c.maxCount ∧
+    (pruneCount c now fl).1.minCount = c.minCount ∧ (pruneCount c now fl).1.hasFn = c.hasFn ∧
+    (pruneCount c now fl).1.nextId = c.nextId := by
+  unfold pruneCount; split <;> exact ⟨rfl, rfl, rfl, rfl, rfl⟩
+
+/-- no operation changes the configuration; only `Set` advances the incarnation counter -/
+theorem step_cfg (c : Cache) (op : Op) :
+    (step c op).1.minAge = c.minAge ∧ (step c op).1.maxCount = c.maxCount ∧
+    (step c op).1.minCount = c.minCount ∧ (step c op).1.hasFn = c.hasFn ∧ c.nextId ≤ (step c op).1.nextId := by
+  cases op with
+  | set k v now fl =>
+    simp only [step, set]
+    split
+    · obtain ⟨a, b, d, e, f⟩ := pruneCount_cfg (c.put k v now) now fl
+      exact ⟨a, b, d, e, by rw [f]; simp [Cache.put]⟩
+    · exact ⟨rfl, rfl, rfl, rfl, by simp [Cache.put]⟩
+  | get k now => simp only [step]; unfold get; split <;> exact ⟨rfl, rfl, rfl, rfl, Nat.le_refl _⟩
+  | delete k fl =>
+    simp only [step]; unfold delete
+    split
+    · split <;> exact ⟨rfl, rfl, rfl, rfl, Nat.le_refl _⟩
+    · exact ⟨rfl, rfl, rfl, rfl, Nat.le_refl _⟩
+  | deleteAll fl => exact ⟨rfl, rfl, rfl, rfl, Nat.le_refl _⟩
+  | pruneAge now fl => simp only [step]; unfold pruneAge; split <;> exact ⟨rfl, rfl, rfl, rfl, Nat.le_refl _⟩
+  | pruneCount now fl =>
+    obtain ⟨a, b, d, e, f⟩ := pruneCount_cfg c now fl
+    exact ⟨a, b, d, e, by simp only [step]; omega⟩
+
+theorem run_wf {c : Cache} (h : c.WF) (ops : List Op) : (after c ops).WF := by
+  induction ops generalizing c with
+  | nil => exact h
+  | cons op ops ih => exact ih (step_wf h op)
+
+theorem run_cfg (c : Cache) (ops : List Op) :
+    (after c ops).minAge = c.minAge ∧ (after c ops).maxCount = c.maxCount ∧
+    (after c ops).minCount = c.minCount ∧ (after c ops).hasFn = c.hasFn := by
+  induction ops generalizing c with
+  | nil => exact ⟨rfl, rfl, rfl, rfl⟩
+  | cons op ops ih =>
+    obtain ⟨a, b, d, e, -⟩ := step_cfg c op
+    obtain ⟨a', b', d', e'⟩ := ih (c := (step c op).1)
+    exact ⟨a'.trans a, b'.trans b, d'.trans d, e'.trans e⟩
+
+theorem pre_wf {c : Cache} (h : c.WF) (op : Op) : (pre c op).WF := by
+  cases op <;> first | exact h | exact put_wf h _ _ _
+
+/-! ### origin: what is in the map after an operation was in the map it started from -/
+
+theorem pruneCount_origin {c : Cache} {now : Nat} {fl : Nat → Bool} {e' : Entry}
+    (h : e' ∈ (pruneCount c now fl).1.entries) : ∃ e ∈ c.entries, Same e' e := by
+  unfold pruneCount at h
+  split at h
+  · exact ⟨e', h, Same.rfl' _⟩
+  · obtain ⟨y, hy, hs⟩ := evict_origin h
+    exact ⟨y, (sortByUsed_perm c.entries).mem_iff.mp hy, hs⟩
+
+theorem step_origin {c : Cache} {op : Op} {e' : Entry} (h : e' ∈ (step c op).1.entries) :
+    ∃ e ∈ (pre c op).entries, Same e' e := by
+  cases op with
+  | set k v now fl =>
+    simp only [step, set] at h
+    split at h
+    · exact pruneCount_origin h
+    · exact ⟨e', h, Same.rfl' _⟩
+  | get k now => exact get_origin h
+  | delete k fl =>
+    simp only [step] at h
+    unfold delete at h
+    split at h
+    · split at h
+      · exact ⟨e', h, Same.rfl' _⟩
+      · exact ⟨e', (List.mem_filter.mp h).1, Same.rfl' _⟩
+    · exact ⟨e', h, Same.rfl' _⟩
+  | deleteAll fl => exact ⟨e', (List.mem_filter.mp h).1, Same.rfl' _⟩
+  | pruneAge now fl =>
+    simp only [step] at h
+    unfold pruneAge at h
+    split at h
+    · exact ⟨e', h, Same.rfl' _⟩
+    · obtain ⟨x, hx, hxe⟩ := List.mem_filterMap.mp h
+      exact ⟨x, hx, ageEntry_same hxe⟩
+  | pruneCount now fl => exact pruneCount_origin h
+
+/-! ### removed ⇒ cleaned up -/
+
+/-- what `pruneCount` does to one entry of the map: kept as it is, kept re-dated after a failed cleanup, or
+    removed after a successful one -/
+theorem pruneCount_cases {c : Cache} (now : Nat) (fl : Nat → Bool) {e : Entry} (he : e ∈ c.entries) :
+    e ∈ (pruneCount c now fl).1.entries ∨
+    (failing c.hasFn fl e = true ∧ redate now e ∈ (pruneCount c now fl).1.entries) ∨
+    (failing c.hasFn fl e = false ∧ ∀ x ∈ callOf c.hasFn fl e, x ∈ (pruneCount c now fl).2.1) := by
+  unfold pruneCount
+  split
+  · exact Or.inl he
+  · obtain ⟨p, q, hs, h1, h2, -, -⟩ := evict_prefix c.hasFn fl now (c.entries.length - c.minCount) (sortByUsed c.entries)
+    have hmem : e ∈ p ++ q := by rw [← hs]; exact (sortByUsed_perm c.entries).mem_iff.mpr he
+    simp only [h1, h2]
+    rcases List.mem_append.mp hmem with hp | hq
+    · by_cases hf : failing c.hasFn fl e = true
+      · exact Or.inr (Or.inl ⟨hf, List.mem_append_left _ (List.mem_map.mpr ⟨e, List.mem_filter.mpr ⟨hp, hf⟩, rfl⟩)⟩)
+      · exact Or.inr (Or.inr ⟨by simpa using hf, fun x hx => List.mem_flatMap.mpr ⟨e, hp, hx⟩⟩)
+    · exact Or.inl (List.mem_append_right _ hq)
+
+theorem pruneCount_removed_cleaned {c : Cache} (hfn : c.hasFn = true) (now : Nat) (fl : Nat → Bool) {e : Entry}
+    (he : e ∈ c.entries) (gone : ∀ e' ∈ (pruneCount c now fl).1.entries, e'.key ≠ e.key) :
+    okCall e ∈ (pruneCount c now fl).2.1 := by
+  rcases pruneCount_cases now fl he with h | ⟨-, h⟩ | ⟨hf, h⟩
+  · exact absurd rfl (gone e h)
+  · exact absurd rfl (gone (redate now e) h)
+  · exact h _ (callOf_ok hfn hf)
+
+/-- **removed ⇒ cleaned up**, one operation: an entry of the map the operation started from whose key is no
+    longer in the map had its cleanup called, for exactly this key and value, and the call succeeded -/
+theorem step_removed_cleaned {c : Cache} (hwf : c.WF) (hfn : c.hasFn = true) (op : Op) {e : Entry}
+    (he : e ∈ (pre c op).entries) (gone : ∀ e' ∈ (step c op).1.entries, e'.key ≠ e.key) :
+    okCall e ∈ (step c op).2 := by
+  cases op with
+  | set k v now fl =>
+    simp only [step, set, pre] at he gone ⊢
+    split at gone
+    · rename_i hc; simp only [hc]
+      exact pruneCount_removed_cleaned (by simpa [Cache.put] using hfn) now fl he gone
+    · exact absurd rfl (gone e he)
+  | get k now =>
+    obtain ⟨e', he', hs⟩ := get_keeps (k := k) (now := now) he
+    exact absurd hs.1 (gone e' he')
+  | delete k fl =>
+    simp only [step, pre] at he gone ⊢
+    unfold delete at gone ⊢
+    split at gone
+    · rename_i e0 hfind
+      obtain ⟨hm, hk⟩ := find_some hfind
+      split at gone
+      · exact absurd rfl (gone e he)
+      · rename_i hf
+        by_cases hek : e.key = k
+        · have : e = e0 := hwf.key_inj he hm (hek.trans hk.symm)
+          subst this
+          simp only [hf, Bool.false_eq_true, if_false]
+          exact callOf_ok hfn (by simpa using hf)
+        · exact absurd rfl (gone e (by simp only [Cache.erase]; exact List.mem_filter.mpr ⟨he, by simpa using hek⟩))
+    · exact absurd rfl (gone e he)
+  | deleteAll fl =>
+    simp only [step, pre, deleteAll] at he gone ⊢
+    by_cases hf : failing c.hasFn fl e = true
+    · exact absurd rfl (gone e (List.mem_filter.mpr ⟨he, hf⟩))
+    · exact List.mem_flatMap.mpr ⟨e, he, callOf_ok hfn (by simpa using hf)⟩
+  | pruneAge now fl =>
+    simp only [step, pre] at he gone ⊢
+    unfold pruneAge at gone ⊢
+    split at gone
+    · exact absurd rfl (gone e he)
+    · rename_i h0
+      simp only [h0, if_false]
+      by_cases hx : expired c.minAge now e = true
+      · by_cases hf : failing c.hasFn fl e = true
+        · exact absurd rfl (gone (redate now e) (List.mem_filterMap.mpr ⟨e, he, by simp [ageEntry, hx, hf, redate]⟩))
+        · exact List.mem_flatMap.mpr ⟨e, List.mem_filter.mpr ⟨he, hx⟩, callOf_ok hfn (by simpa using hf)⟩
+      · exact absurd rfl (gone e (List.mem_filterMap.mpr ⟨e, he, by simp [ageEntry, hx]⟩))
+  | pruneCount now fl => exact pruneCount_removed_cleaned hfn now fl he gone
+
+/-! ### failed cleanup ⇒ kept -/
+
+theorem pruneCount_failed_kept {c : Cache} (now : Nat) (fl : Nat → Bool) {x : Call}
+    (hx : x ∈ (pruneCount c now fl).2.1) (hbad : x.ok = false) :
+    ∃ e ∈ (pruneCount c now fl).1.entries, e.key = x.key ∧ e.val = x.val ∧ e.used = now := by
+  unfold pruneCount at hx ⊢
+  split at hx
+  · cases hx
+  · rename_i hc
+    simp only [hc, if_false]
+    obtain ⟨p, q, -, h1, h2, -, -⟩ := evict_prefix c.hasFn fl now (c.entries.length - c.minCount) (sortByUsed c.entries)
+    simp only [h2] at hx
+    obtain ⟨y, hy, hxy⟩ := List.mem_flatMap.mp hx
+    obtain ⟨hf, hk, hv⟩ := callOf_failed hxy hbad
+    refine ⟨redate now y, ?_, hk.symm, hv.symm, rfl⟩
+    simp only [h1]
+    exact List.mem_append_left _ (List.mem_map.mpr ⟨y, List.mem_filter.mpr ⟨hy, hf⟩, rfl⟩)
+
+/-- **failed cleanup ⇒ kept**, one operation: if a callback invocation of the operation reported an error, an
+    entry with this key and value is in the map afterwards -/
+theorem step_failed_kept (c : Cache) (op : Op) {x : Call} (hx : x ∈ (step c op).2) (hbad : x.ok = false) :
+    ∃ e ∈ (step c op).1.entries, e.key = x.key ∧ e.val = x.val := by
+  cases op with
+  | set k v now fl =>
+    simp only [step, set] at hx ⊢
+    split at hx
+    · rename_i hc; simp only [hc]
+      obtain ⟨e, he, h1, h2, -⟩ := pruneCount_failed_kept now fl hx hbad
+      exact ⟨e, he, h1, h2⟩
+    · cases hx
+  | get k now => cases hx
+  | delete k fl =>
+    simp only [step] at hx ⊢
+    unfold delete at hx ⊢
+    split at hx
+    · rename_i e0 hfind
+      have hcall : x ∈ callOf c.hasFn fl e0 := by split at hx <;> exact hx
+      obtain ⟨hf, hk, hv⟩ := callOf_failed hcall hbad
+      simp only [hf, if_true]
+      exact ⟨e0, (find_some hfind).1, hk.symm, hv.symm⟩
+    · cases hx
+  | deleteAll fl =>
+    simp only [step, deleteAll] at hx ⊢
+    obtain ⟨y, hy, hxy⟩ := List.mem_flatMap.mp hx
+    obtain ⟨hf, hk, hv⟩ := callOf_failed hxy hbad
+    exact ⟨y, List.mem_filter.mpr ⟨hy, hf⟩, hk.symm, hv.symm⟩
+  | pruneAge now fl =>
+    simp only [step] at hx ⊢
+    unfold pruneAge at hx ⊢
+    split at hx
+    · cases hx
+    · rename_i h0
+      simp only [h0, if_false]
+      obtain ⟨y, hy, hxy⟩ := List.mem_flatMap.mp hx
+      obtain ⟨hm, hexp⟩ := List.mem_filter.mp hy
+      obtain ⟨hf, hk, hv⟩ := callOf_failed hxy hbad
+      exact ⟨redate now y, List.mem_filterMap.mpr ⟨y, hm, by simp [ageEntry, hexp, hf, redate]⟩, hk.symm, hv.symm⟩
+  | pruneCount now fl =>
+    obtain ⟨e, he, h1, h2, -⟩ := pruneCount_failed_kept now fl hx hbad
+    exact ⟨e, he, h1, h2⟩
+
 end Ccd
